@@ -139,11 +139,13 @@ Q q_add_sat_fb() { T x = nd<T>(); T y = nd<T>(); vf_assert((i128)k_add_sat_fb(x,
 // It is stated on magnitudes, |x| == |q| * |y| + rho with 0 <= rho < |y|, plus the sign rule (q == 0 or sign(q) == sign(x) xor sign(y)).
 typedef std::conditional_t<(W < 64), i64, i128> wide_t;
 typedef std::conditional_t<(W < 64), u64, unsigned __int128> uwide_t;
-static uwide_t mag(T v) { wide_t w = v; return uwide_t(w < 0 ? -w : w); }
+static UT umag(T v) { return v < 0 ? UT(UT(0) - UT(v)) : UT(v); }
 static bool is_quot(T x, T y, T q)
 {
-    uwide_t ax = mag(x), ay = mag(y), p = mag(q) * ay; // < 2^(2W): exact
-    return (q == 0 || ((q < 0) == ((x < 0) != (y < 0)))) && p <= ax && ax - p < ay;
+    bool neg = (x < 0) != (y < 0);
+    UT uq = neg ? UT(UT(0) - UT(q)) : UT(q);                 // magnitude of q under the sign rule
+    uwide_t ax = umag(x), ay = umag(y), p = uwide_t(uq) * ay;  // < 2^(2W): exact
+    return (q == 0 || (q < 0) == neg) && p <= ax && ax - p < ay;
 }
 Q q_div_sat()
 {
